@@ -1,7 +1,8 @@
 """Structural normal form of generated SQL for the model-vs-implementation comparison:
 sqlglot(duckdb) AST with comments dropped, parentheses nodes dropped (tree shape already encodes
 precedence), identifier quoting normalised, and the projection list of every CTE sorted by alias
-(CTE column order cannot affect the result; C15 looks at order separately). Nothing else."""
+(CTE column order cannot affect the result; C15 looks at order separately), AND/OR chains
+re-associated to the left (associativity holds in 3VL). Nothing else."""
 from __future__ import annotations
 
 import re
@@ -20,7 +21,18 @@ def _strip(e):
     e = e.transform(tr)
     for n in e.walk():
         n.comments = None
-    return e
+
+    def assoc(node):
+        # AND / OR are associative (also in three-valued logic): rebuild chains left-nested
+        for cls in (exp.And, exp.Or):
+            if isinstance(node, cls) and not isinstance(node.parent, cls):
+                ops = list(node.flatten())
+                acc = ops[0]
+                for o in ops[1:]:
+                    acc = cls(this=acc, expression=o)
+                return acc
+        return node
+    return e.transform(assoc, copy=True)
 
 
 def normal_form(sql: str) -> str:
